@@ -28,7 +28,7 @@ mod imp {
     use std::sync::{Arc, Mutex};
     use std::time::{Duration, Instant};
 
-    const PATIENCE: Duration = Duration::from_millis(2500);
+    const PATIENCE: Duration = Duration::from_millis(5000);
     const CLOSED_BASE: i32 = 900;
 
     thread_local! {
@@ -124,8 +124,11 @@ mod imp {
                         } else {
                             json!({"c": c, "k": k, "ret": ret, "bytes": buf[..n].to_vec()})
                         }
-                    } else {
+                    } else if ret == -1 {
                         json!({"c": c, "k": k, "err": e})
+                    } else {
+                        // a failure must be reported as -1
+                        json!({"c": c, "k": k, "err": e, "badret": ret})
                     };
                     emit_partial(&rec);
                     sh.records.lock().expect("records").push(rec);
